@@ -17,6 +17,9 @@ class Tag:
 
     __slots__ = ("s", "idx", "src")
 
+    def __deepcopy__(self, memo):
+        return self  # an immutable token
+
     def __init__(self, s, idx, src):
         self.s, self.idx, self.src = s, idx, src
 
@@ -56,7 +59,7 @@ class Prop:
             "event log (operations, outcomes, eval calls)")
     probes = ["op_scalar", "op_array", "op_view_create", "op_on_view", "op_on_packed_view", "expect_indexerror_order",
               "expect_indexerror_finite", "expect_runtimeerror_cycle", "masked_result", "precached_read",
-              "dep_nested_eval", "dep_slice_eval", "dep_view_eval", "nested_list_index", "none_valued_read", "kept_view_created", "op_on_kept_view", "npint_index", "cycle_len1", "cycle_len2", "cycle_len3", "view_of_view", "wrong_length", "bare_index", "zero_dim_array_index", "subclassed_roots", "oob_scalar_view", "op_on_oob_view", "eval_formats_series", "pop_cached", "pop_absent", "contains_true", "contains_false"]
+              "dep_nested_eval", "dep_slice_eval", "dep_view_eval", "nested_list_index", "none_valued_read", "kept_view_created", "op_on_kept_view", "npint_index", "cycle_len1", "cycle_len2", "cycle_len3", "view_of_view", "wrong_length", "bare_index", "index_list_mutated_after_view", "deepcopy_checked", "zero_dim_array_index", "subclassed_roots", "oob_scalar_view", "op_on_oob_view", "eval_formats_series", "pop_cached", "pop_absent", "contains_true", "contains_false"]
     components_real = ["pymablock.series.BlockSeries (__getitem__, views, pop, __contains__, _check_finite, _check_number_perturbations)"]
     components_stub = ["element eval callbacks (simulator-owned table with dependency edges)", "series names (token_hex counter)"]
     assumptions = ["orders < 5, at most 4 finite and 2 infinite dimensions (5 in total), sizes 1-3",
@@ -123,6 +126,8 @@ class Prop:
                 item = [({"npi": c} if isinstance(c, int) and r.random() < 0.6 else c) for c in item]
                 item = [({"np0": c["npi"]} if isinstance(c, dict) and "npi" in c and r.random() < 0.25 else c) for c in item]
             ops.append(["idx", list(tgt), item, len(ops)])
+            if make_view and any(isinstance(c, dict) and "l" in c for c in item) and r.random() < 0.4:
+                ops[-1].append("mut")  # after creating the view the caller re-uses (mutates) the lists it indexed with
             if len(item) == 1 and r.random() < 0.5:
                 ops[-1].append("bare")  # the single index component is given as it is, not wrapped in a tuple: S[[0, 2]], S[1:], S[3]
             if make_view and nviews < 6:
@@ -437,7 +442,8 @@ class Prop:
                 op = ["idx", ("k",) + key, korders, -1]
                 bump("op_on_kept_view")
             _, tgt, item_spec, label = op[:4]
-            bare = len(op) > 4 and op[4] == "bare"
+            bare = "bare" in op[4:]
+            mutate_after = "mut" in op[4:]
             tgt = tuple(tgt)
             if tgt not in targets:
                 continue
@@ -550,6 +556,14 @@ class Prop:
                     anc = packed_anc + (((Dv, Dv.ndim - ninf),) if vkind == "packed" else ())
                     targets[("v", label)] = (V, Dv, Dv.ndim - ninf, ninf, vkind, anc)
                     all_series.append(V)
+                    if mutate_after:
+                        for comp_ in item:
+                            if isinstance(comp_, list):
+                                bump("index_list_mutated_after_view")
+                                comp_.reverse()
+                                comp_.append(0)
+                                if comp_ and isinstance(comp_[0], int):
+                                    comp_[0] = 0
                     bump("op_view_create")
                     if kind != "root":
                         bump("view_of_view")
@@ -622,6 +636,22 @@ class Prop:
                         fail("pending-left", f"{desc}: in-flight marker left in {x.name}[{k}]")
                 sig ^= hash((xi, frozenset(x._data)))
             states.append(format(sig & 0xFFFFFFFFFFFF, "x"))
+
+        # a deep copy of a series is a series with the same elements: absent stays absent (the sentinels are singletons)
+        if violation is None:
+            import copy
+
+            for s_, root_ in enumerate(real_roots):
+                try:
+                    twin = copy.deepcopy(root_)
+                except Exception:  # noqa: BLE001 - exotic element values may refuse to be copied
+                    continue
+                bump("deepcopy_checked")
+                for k_, v_ in root_._data.items():
+                    if (v_ is zero) != (twin._data.get(k_) is zero):
+                        fail("copy-forges-sentinel", f"copy.deepcopy(R{s_}): cached element {k_} is {'absent' if v_ is zero else 'present'} in the original and "
+                                                     f"{'absent' if twin._data.get(k_) is zero else 'present (a second Zero instance)'} in the copy")
+                        break
 
         # cycle length probes (2, 3) – structural, from the edge list
         es = {((e[0], tuple(e[1])), (e[2], tuple(e[3]))) for e in case["edges"] if not (len(e) > 4 and e[4] == "kv")}
